@@ -85,6 +85,12 @@ def run_translator(ctx):
 
 def build_own(ctx):
     """coqc every stale file of OWN_FILES, in order (only while coq/C45 is not part of the shared Makefile)"""
+    if vlib.in_project(OWN_FILES[0]):
+        # part of the shared Makefile: make builds the model and proof files (make -k: a broken proof file leaves the model usable)
+        ok, log = ctx.coq_make(SHARED + [f[:-2] + ".vo" for f in OWN_FILES])
+        if not ok:
+            ctx.broken.append({"kind": "proof", "name": "C45 proof modules", "detail": log[-2500:]})
+        return all(os.path.exists(os.path.join(COQ, f + "o")) for f in MODEL_FILES)
     ok, log = ctx.coq_make(SHARED)
     if not ok:
         ctx.broken.append({"kind": "proof", "name": "shared modules", "detail": log[-2500:]})
